@@ -35,11 +35,32 @@ def run_wgsl_vs_ir(exe_w, exe_ir, cases, fuel=200000):
             wj.append({"ast": c["prog"], "globals": inp["globals"], "args": inp["args"], "fuel": fuel})
             ij.append({"ir": ir, "ep": 0, "globals": inp["globals"], "args": inp["args"], "fuel": fuel})
             idx.append((ci, k))
-    wr = vcheck.run_model(exe_w, wj) if wj else []
-    irr = vcheck.run_model(exe_ir, ij) if ij else []
+    wr = run_chunked(exe_w, wj)
+    irr = run_chunked(exe_ir, ij)
     out = []
     for (ci, k), a, b in zip(idx, wr, irr):
         out.append({"case": ci, "input": k, "wgsl": a, "ir": b})
+    return out
+
+
+def run_chunked(exe, jobs, chunk=16, timeout=180):
+    """Run a model tool on jobs in small batches in parallel; a batch that times out yields
+    {"ok": False, "kind": "timeout"} for each of its jobs."""
+    import subprocess
+    from concurrent.futures import ThreadPoolExecutor
+    parts = [jobs[i:i + chunk] for i in range(0, len(jobs), chunk)]
+
+    def one(part):
+        try:
+            return vcheck.run_model(exe, part, timeout=timeout)
+        except subprocess.TimeoutExpired:
+            return [{"ok": False, "kind": "timeout"} for _ in part]
+        except RuntimeError as e:
+            return [{"ok": False, "kind": "toolerror", "msg": str(e)[:200]} for _ in part]
+    out = []
+    with ThreadPoolExecutor(max(1, vcheck.NCPU // 2)) as ex:
+        for r in ex.map(one, parts):
+            out += r
     return out
 
 
